@@ -433,6 +433,19 @@ func Ite(c, a, b *Term) *Term {
 		}
 		return And(c, a)
 	}
+	// boolean-valued ite in general: a propositional formula (so that path conditions stay within what the
+	// truth-table reasoning understands); ite(c, c, e) = c or e, ite(c, a, c) = c and a
+	if isBoolTerm(a) && isBoolTerm(b) {
+		if Eq(c, a) {
+			return Or(c, b)
+		}
+		if Eq(c, b) {
+			return And(c, a)
+		}
+		if len(a.Key())+len(b.Key())+2*len(c.Key()) < 6000 {
+			return Or(And(c, a), And(Not(c), b))
+		}
+	}
 	return &Term{Op: "ite", Args: []*Term{c, a, b}, T: t}
 }
 
